@@ -228,97 +228,112 @@ def getBig (vals : Array BVal) (s : String) : Option BVar :=
     | _ => none
   | none => none
 
-def liftB (r : Except BStop (BVar × Bool)) : Option (Except BStop (BVal × Bool)) :=
-  some (r.map (fun t => (BVal.big t.1, t.2)))
+def liftB (r : Big.BM (BVar × Bool)) : Option (Big.BM (BVal × Bool)) :=
+  some (r >>= fun t => pure (BVal.big t.1, t.2))
 
-def optPanic {α : Type} (o : Option α) : Except BStop α :=
+def optPanic {α : Type} (o : Option α) : Big.BM α :=
   match o with
-  | some a => .ok a
-  | none => .error .panic
+  | some a => pure a
+  | none => Big.stopB .panic
 
+/-- One operation of a BigUint program: value, whether the honest witness satisfies what was
+emitted, and (in the state) the range-check events of the operation. -/
 def stepBig (vals : Array BVal) (name : String) (a : List String) :
-    Option (Except BStop (BVal × Bool)) :=
+    Option (Big.BM (BVal × Bool)) :=
   let lb := bigLb
   let nb := bigNumBits
+  let ok (v : BVal) (b : Bool := true) : Option (Big.BM (BVal × Bool)) := some (pure (v, b))
   match name, a with
   | "in", [v, w] => do let v ← parseNat? v; let w ← w.toNat?; liftB (Big.assignBounded lb v w)
-  | "fix", [v] => do let v ← parseNat? v; some (.ok (.big (Big.assignFixed lb v), true))
-  | "inbit", [b] => some (.ok (.bit (b = "1"), true))
-  | "inbits", [b] => some (.ok (.bits ((b.toList.filter (fun ch => ch = '0' ∨ ch = '1')).map (· = '1')), true))
-  | "inbytes", [b] => do let l ← parseNatList? b; some (.ok (.bytes l, true))
+  | "fix", [v] => do let v ← parseNat? v; ok (.big (Big.assignFixed lb v))
+  | "inbit", [b] => ok (.bit (b = "1"))
+  | "inbits", [b] => ok (.bits ((b.toList.filter (fun ch => ch = '0' ∨ ch = '1')).map (· = '1')))
+  | "inbytes", [b] => do
+    let l ← parseNatList? b
+    -- `assign` of an `AssignedByte`: one `assign_less_than_pow2(·, 8)` per byte
+    some (do Big.emitB (l.map (fun _ => Big.BEv.a 8)); pure (BVal.bytes l, true))
   | "add", [x, y] => do let x ← getBig vals x; let y ← getBig vals y; liftB (Big.add lb nb x y)
   | "sub", [x, y] => do let x ← getBig vals x; let y ← getBig vals y; liftB (Big.sub lb nb x y)
   | "mul", [x, y] => do let x ← getBig vals x; let y ← getBig vals y; liftB (Big.mul lb nb x y)
   | "div", [x, y] => do
     let x ← getBig vals x; let y ← getBig vals y
-    some ((Big.divRem lb nb x y).map (fun t => (.big t.1, t.2.2)))
+    some ((Big.divRem lb nb x y) >>= fun t => pure (BVal.big t.1, t.2.2))
   | "rem", [x, y] => do
     let x ← getBig vals x; let y ← getBig vals y
-    some ((Big.divRem lb nb x y).map (fun t => (.big t.2.1, t.2.2)))
+    some ((Big.divRem lb nb x y) >>= fun t => pure (BVal.big t.2.1, t.2.2))
   | "modexp", [x, n, m] => do
     let x ← getBig vals x; let n ← n.toNat?; let m ← getBig vals m
     liftB (Big.modExp lb nb x n m)
   | "lt", [x, y] => do
     let x ← getBig vals x; let y ← getBig vals y
-    some ((optPanic (Big.geq lb x y)).map (fun g => (.bit (!g), true)))
+    some ((Big.geq lb x y) >>= fun g => pure (BVal.bit (!g), true))
   | "eq", [x, y] => do
     let x ← getBig vals x; let y ← getBig vals y
-    some ((optPanic (Big.limbsEqual lb x y)).map (fun e => (.bit e, true)))
+    some ((optPanic (Big.limbsEqual lb x y)) >>= fun e => pure (BVal.bit e, true))
   | "neq", [x, y] => do
     let x ← getBig vals x; let y ← getBig vals y
-    some ((optPanic (Big.limbsEqual lb x y)).map (fun e => (.bit (!e), true)))
+    some ((optPanic (Big.limbsEqual lb x y)) >>= fun e => pure (BVal.bit (!e), true))
   | "eqc", [x, c] => do
     let x ← getBig vals x; let c ← parseNat? c
-    if !(isNormalized lb x.sb) then some (.error .panic) else
+    if !(isNormalized lb x.sb) then some (Big.stopB .panic) else
     let n := (natBits c + lb - 1) / lb
-    if x.limbs.length < n then some (.ok (.bit false, true)) else
-    some (.ok (.bit (x.limbs == (bigToLimbs lb x.limbs.length c).1), true))
+    if x.limbs.length < n then ok (.bit false) else
+    ok (.bit (x.limbs == (bigToLimbs lb x.limbs.length c).1))
   | "asserteq", [x, y] => do
     let x ← getBig vals x; let y ← getBig vals y
-    some ((optPanic (Big.limbsEqual lb x y)).map (fun e => (.unit, e)))
+    some ((optPanic (Big.limbsEqual lb x y)) >>= fun e => pure (BVal.unit, e))
   | "assertneq", [x, y] => do
     let x ← getBig vals x; let y ← getBig vals y
-    some ((optPanic (Big.limbsEqual lb x y)).map (fun e => (.unit, !e)))
+    some ((optPanic (Big.limbsEqual lb x y)) >>= fun e => pure (BVal.unit, !e))
   | "asserteqc", [x, c] => do
     let x ← getBig vals x; let c ← parseNat? c
-    if !(isNormalized lb x.sb) then some (.error .panic) else
+    if !(isNormalized lb x.sb) then some (Big.stopB .panic) else
     let n := (natBits c + lb - 1) / lb
-    if x.limbs.length < n then some (.error .panic) else
-    some (.ok (.unit, x.limbs == (bigToLimbs lb x.limbs.length c).1))
+    if x.limbs.length < n then some (Big.stopB .panic) else
+    ok .unit (x.limbs == (bigToLimbs lb x.limbs.length c).1)
   | "select", [b, x, y] => do
     let i ← b.toNat?
     let x ← getBig vals x; let y ← getBig vals y
     match vals[i]? with
-    | some (.bit b) => some ((optPanic (Big.select b x y)).map (fun r => (.big r, true)))
+    | some (.bit b) => some ((optPanic (Big.select b x y)) >>= fun r => pure (BVal.big r, true))
     | _ => none
   | "tobits", [x] => do
     let x ← getBig vals x
-    if !(isNormalized lb x.sb) then some (.error .panic) else
-    some (.ok (.bits (x.limbs.flatMap (Big.natBitsLE lb)), x.limbs.all (fun l => decide (l < 2 ^ lb))))
+    if !(isNormalized lb x.sb) then some (Big.stopB .panic) else
+    -- native `assigned_to_le_bits(limb, Some(LOG2_BASE), true)` per limb
+    some (do
+      Big.emitB (x.limbs.map (fun _ => Big.BEv.d lb 1))
+      pure (BVal.bits (x.limbs.flatMap (Big.natBitsLE lb)), x.limbs.all (fun l => decide (l < 2 ^ lb))))
   | "tobytes", [x] => do
     let x ← getBig vals x
-    if !(isNormalized lb x.sb) then some (.error .panic) else
-    some (.ok (.bytes (x.limbs.flatMap (fun l => (Big.chunksOf (lb + 1) 8 (Big.natBitsLE lb l)).map Big.bitsToNat)),
-      x.limbs.all (fun l => decide (l < 2 ^ lb))))
+    if !(isNormalized lb x.sb) then some (Big.stopB .panic) else
+    -- native `assigned_to_le_bytes(limb, Some(LOG2_BASE / 8))` per limb
+    some (do
+      Big.emitB (x.limbs.map (fun _ => Big.BEv.d lb 8))
+      pure (BVal.bytes (x.limbs.flatMap (fun l => (Big.chunksOf (lb + 1) 8 (Big.natBitsLE lb l)).map Big.bitsToNat)),
+        x.limbs.all (fun l => decide (l < 2 ^ lb))))
   | "frombits", [v] => do
     let i ← v.toNat?
     match vals[i]? with
-    | some (.bits bs) => some (.ok (.big (Big.fromBits lb bs), true))
+    | some (.bits bs) => ok (.big (Big.fromBits lb bs))
     | _ => none
   | "frombytes", [v] => do
     let i ← v.toNat?
     match vals[i]? with
-    | some (.bytes bs) => some (.ok (.big (Big.fromBytes lb bs), true))
+    | some (.bytes bs) => ok (.big (Big.fromBytes lb bs))
     | _ => none
   | "pi", [x, w] => do
     let x ← getBig vals x; let w ← w.toNat?
-    if w ≠ nbBits lb x.sb then some (.error .err) else
-    some ((Big.normalize lb nb x).map (fun t => (.unit, t.2)))
+    if w ≠ nbBits lb x.sb then some (Big.stopB .err) else
+    some ((Big.normalize lb nb x) >>= fun t => pure (BVal.unit, t.2))
   | _, _ => none
 
-def runBig (ops : List (List String)) : String := Id.run do
+/-- Run a BigUint program: outputs and verdict (`trace = false`), or, per executed operation, the
+range-check events in emission order (`trace = true`; the `bigrc` lines). -/
+def runBig (ops : List (List String)) (trace : Bool := false) : String := Id.run do
   let mut vals : Array BVal := #[]
   let mut outs : Array String := #[]
+  let mut evs : Array String := #[]
   let mut sat := true
   let mut stop : Option String := none
   for o in ops do
@@ -326,49 +341,30 @@ def runBig (ops : List (List String)) : String := Id.run do
     | name :: args =>
       match stepBig vals name args with
       | none => return "bad-op"
-      | some (.error .err) => stop := some "E"; break
-      | some (.error .panic) => stop := some "P"; break
-      | some (.ok (v, ok)) =>
-        vals := vals.push v
-        outs := outs.push (fmtBVal v)
-        sat := sat && ok
+      | some m =>
+        match (m.run #[] : Except BStop ((BVal × Bool) × Array Big.BEv)) with
+        | .error .err => stop := some "E"; break
+        | .error .panic => stop := some "P"; break
+        | .ok ((v, ok), es) =>
+          vals := vals.push v
+          outs := outs.push (fmtBVal v)
+          evs := evs.push (if es.isEmpty then "-" else ",".intercalate (es.toList.map Big.BEv.fmt))
+          sat := sat && ok
     | [] => return "bad-op"
+  if trace then
+    let l := evs.toList ++ (match stop with | some s => [s] | none => [])
+    return if l.isEmpty then "-" else " | ".intercalate l
   let outl := outs.toList ++ (match stop with | some s => [s] | none => [])
   let verdict := match stop with
     | some _ => "stopped"
     | none => if sat then "sat" else "unsat"
   return " | ".intercalate outl ++ " => " ++ verdict
 
-/-- `bigrc ; prog`: for every executed `in` (assign_biguint → `assign_bounded`), the bit length
-of the range check of every limb (`assign_lower_than_fixed(limb, 2^bound)`): the size bounds
-`boundedSb`. -/
-def runBigRc (ops : List (List String)) : String := Id.run do
-  let mut vals : Array BVal := #[]
-  let mut toks : Array String := #[]
-  let mut i := 0
-  for o in ops do
-    match o with
-    | name :: args =>
-      match stepBig vals name args with
-      | none => return "bad-op"
-      | some (.error _) => break
-      | some (.ok (v, _)) =>
-        vals := vals.push v
-        match name, args with
-        | "in", [_, w] =>
-          match w.toNat? with
-          | some w => toks := toks.push s!"{i}:{fmtNatList (Big.boundedSb bigLb w)}"
-          | none => return "bad-op"
-        | _, _ => pure ()
-    | [] => return "bad-op"
-    i := i + 1
-  return if toks.isEmpty then "-" else " | ".intercalate toks.toList
-
 def answerBig (line : String) : String :=
   match (line.trimAscii.toString.splitOn " ; ") with
   | hd :: rest =>
     if hd.trimAscii.toString = "big" then runBig (rest.map words)
-    else if hd.trimAscii.toString = "bigrc" then runBigRc (rest.map words) else "bad-op"
+    else if hd.trimAscii.toString = "bigrc" then runBig (rest.map words) true else "bad-op"
   | [] => "bad-op"
 
 def answerProg (line : String) : String :=
